@@ -149,6 +149,18 @@ package transform
 //@   ensures [err-zoom] !(1 <= outputHZoom && outputHZoom <= 31 && 0 <= outputVZoom && outputVZoom <= 35) ==> r1 != nil && len(r0) == 0
 //@   ensures [err-height-order] maxHeight < minHeight && len(extendedSpatialIDs) > 0 ==> r1 != nil
 //@   ensures [err-malformed] (exists k :: 0 <= k && k < len(extendedSpatialIDs) && !isext(extendedSpatialIDs[k])) ==> r1 != nil
+//@   -- no (quadkey, vertical index) pair is reported twice, within a group or across groups
+//@   ensures [no-pair-twice] r1 == nil ==> (forall g1, j1, g2, j2 :: 0 <= g1 && g1 < len(r0) && 0 <= j1 && j1 < len(r0[g1].innerIDList) && 0 <= g2 && g2 < len(r0) && 0 <= j2 && j2 < len(r0[g2].innerIDList) && (g1 != g2 || j1 != j2) ==> r0[g1].innerIDList[j1] != r0[g2].innerIDList[j2])
+//@   loop 0 invariant [pairs-distinct] (forall g1, j1, g2, j2 :: 0 <= g1 && g1 < len(extendedSpatialIDToQuadkeyAndVerticalID) && 0 <= j1 && j1 < len(extendedSpatialIDToQuadkeyAndVerticalID[g1].innerIDList) && 0 <= g2 && g2 < len(extendedSpatialIDToQuadkeyAndVerticalID) && 0 <= j2 && j2 < len(extendedSpatialIDToQuadkeyAndVerticalID[g2].innerIDList) && (g1 != g2 || j1 != j2) ==> extendedSpatialIDToQuadkeyAndVerticalID[g1].innerIDList[j1] != extendedSpatialIDToQuadkeyAndVerticalID[g2].innerIDList[j2])
+//@   loop 0 invariant [pairs-recorded] (forall g, j :: 0 <= g && g < len(extendedSpatialIDToQuadkeyAndVerticalID) && 0 <= j && j < len(extendedSpatialIDToQuadkeyAndVerticalID[g].innerIDList) ==> has(deduplication, extendedSpatialIDToQuadkeyAndVerticalID[g].innerIDList[j]))
+//@   loop 4 invariant [pairs-recorded] (forall g, j :: 0 <= g && g < len(extendedSpatialIDToQuadkeyAndVerticalID) && 0 <= j && j < len(extendedSpatialIDToQuadkeyAndVerticalID[g].innerIDList) ==> has(deduplication, extendedSpatialIDToQuadkeyAndVerticalID[g].innerIDList[j]))
+//@   loop 4 invariant [current-recorded] (forall j :: 0 <= j && j < len(idList) ==> has(deduplication, idList[j]))
+//@   loop 4 invariant [current-new] (forall j, g, j2 :: 0 <= j && j < len(idList) && 0 <= g && g < len(extendedSpatialIDToQuadkeyAndVerticalID) && 0 <= j2 && j2 < len(extendedSpatialIDToQuadkeyAndVerticalID[g].innerIDList) ==> extendedSpatialIDToQuadkeyAndVerticalID[g].innerIDList[j2] != idList[j])
+//@   loop 4 invariant [current-distinct] (forall a, b :: 0 <= a && a < b && b < len(idList) ==> idList[a] != idList[b])
+//@   loop 5 invariant [pairs-recorded] (forall g, j :: 0 <= g && g < len(extendedSpatialIDToQuadkeyAndVerticalID) && 0 <= j && j < len(extendedSpatialIDToQuadkeyAndVerticalID[g].innerIDList) ==> has(deduplication, extendedSpatialIDToQuadkeyAndVerticalID[g].innerIDList[j]))
+//@   loop 5 invariant [current-recorded] (forall j :: 0 <= j && j < len(idList) ==> has(deduplication, idList[j]))
+//@   loop 5 invariant [current-new] (forall j, g, j2 :: 0 <= j && j < len(idList) && 0 <= g && g < len(extendedSpatialIDToQuadkeyAndVerticalID) && 0 <= j2 && j2 < len(extendedSpatialIDToQuadkeyAndVerticalID[g].innerIDList) ==> extendedSpatialIDToQuadkeyAndVerticalID[g].innerIDList[j2] != idList[j])
+//@   loop 5 invariant [current-distinct] (forall a, b :: 0 <= a && a < b && b < len(idList) ==> idList[a] != idList[b])
 //@   -- every returned group carries the request's output zooms and height range unchanged
 //@   ensures [group-parameters] r1 == nil ==> (forall g :: 0 <= g && g < len(r0) ==> r0[g] != nil && r0[g].quadkeyZoom == outputHZoom && r0[g].vZoom == outputVZoom && r0[g].maxHeight == maxHeight && r0[g].minHeight == minHeight)
 //@   loopframe
